@@ -414,6 +414,33 @@ func genC09(e *emitter, r *rng, thorough bool) {
 			}
 		}
 	}
+	// --- small integers in ONE word, every bit length 1..26 (and 27..32: magnitude 64 of that word, out of contract for
+	//     the multiplications): "fits a machine word" shortcuts confuse the 26-bit field word with the 32-bit one
+	for bits := uint(1); bits <= 32; bits++ {
+		for _, d := range []int64{-1, 0, 1} {
+			v := int64(1)<<bits + d
+			if v < 0 || v > 1<<32-1 {
+				continue
+			}
+			var a, b fv
+			a[0] = uint32(v)
+			b[0] = uint32((v * 3) & 0x3ffffff)
+			cl := ".oneword"
+			if v >= 1<<26 {
+				cl = ".oneword.ooc"
+			}
+			sa, sb := fvStr(a), fvStr(b)
+			for _, op := range []string{"sq", "sqval", "inv", "sqrt", "normalise", "mulself"} {
+				e.emit(op+cl, "field."+op+" "+sa)
+			}
+			for _, op := range []string{"mul", "mul2", "add", "add2"} {
+				e.emit(op+cl, "field."+op+" "+sa+" "+sb)
+			}
+			e.emit("mulint"+cl, "field.mulint "+sa+" 8")
+			e.emit("neg"+cl, "field.neg "+sa+" 1")
+			e.emit("negval"+cl, "field.negval "+sa+" 1")
+		}
+	}
 	// --- Mul / Mul2 / Square / SquareVal: magnitudes <= 8
 	for _, mm := range [][2]uint64{{1, 1}, {1, 8}, {8, 1}, {2, 3}, {4, 4}, {8, 8}, {9, 8}, {8, 9}, {16, 16}, {63, 63}} {
 		in := mm[0] <= 8 && mm[1] <= 8
